@@ -294,7 +294,12 @@ func prepare(cfg Config, eng *FakeEngine) (*Sim, error) {
 		s.Validators = append(s.Validators, NewValKey(cfg.Seed, i, p))
 	}
 	for i := 0; i <= cfg.NumVoters; i++ {
-		s.RelayerKeys = append(s.RelayerKeys, NewRelayerMember(cfg.Seed, i))
+		m := NewRelayerMember(cfg.Seed, i)
+		if i == 0 && cfg.ShareProposerKey && len(s.Validators) > 0 {
+			v := s.Validators[0]
+			m.AccPriv, m.AccAddr, m.AddrStr = v.Priv, sdk.AccAddress(v.ConsAddr), v.AddrStr
+		}
+		s.RelayerKeys = append(s.RelayerKeys, m)
 	}
 	s.BtcKey, s.BtcPubkey = NewBitcoinPubkey(cfg.Seed)
 
